@@ -8,6 +8,7 @@ CONSTANTS
   BatchSet = {2}
   PathSet = {"async", "sync"}
   MaxPauses = 1
+  MaxRestarts = 0
   Kinds = {"waive", "stale", "equal", "future", "neg"}
   Pols = {"leader", "none"}
   Mut = "none"
